@@ -42,6 +42,9 @@ func ParseStringFunc(shoot string) (string, []string, error) {
 }
 
 func RandStringRunes(n int64, s string) string {
+	if n <= 0 {
+		return ""
+	}
 	if len(s) == 0 {
 		s = letters
 	}
